@@ -190,9 +190,9 @@ func c14Spaces(tier string) []*explore.Space {
 			fns = append(fns, gen.AbsP(gen.DSlash(), gen.Ch("*", gen.B("=", gen.F(f), gen.S(v)))), gen.AbsP(gen.DSlash(), gen.At("*", gen.B("=", gen.F(f), gen.S(v)))))
 		}
 	}
-	n := 2
+	n := 3
 	if tier == "thorough" {
-		n = 3
+		n = 4
 	}
 	docs := func() []*doc.Tree { return uni14(n) }
 	var spaces []*explore.Space
